@@ -35,7 +35,6 @@ func Explore(pkg *ssa.Package, fn string, sizes types.Sizes, budget time.Duratio
 	pendingDefs = nil
 	varRange = map[string][2]*big.Int{}
 	varSigned = map[string]bool{}
-	lastNow = nil
 	f := pkg.Func(fn)
 	if f == nil {
 		panic("no func " + fn)
@@ -44,6 +43,7 @@ func Explore(pkg *ssa.Package, fn string, sizes types.Sizes, budget time.Duratio
 		onceDone = map[*value]bool{}
 		SCH = newScheduler()
 		sideMaps = map[*value]*hashmap{}
+		vtimeReset()
 		i := newInterp(pkg.Prog, sizes)
 		call(i, nil, token.NoPos, pkg.Func("init"), nil)
 		call(i, nil, token.NoPos, f, nil)
@@ -93,6 +93,12 @@ func intrinsic(name string, args []value) (value, bool) {
 		h.S = true
 		EX.pc = append(EX.pc, mkAnd(mk("bvsge", 0, v.t, z), mk("bvsle", 0, v.t, h)))
 		return EX.concretize(v), true
+	case "zzConcretizeU64":
+		// fork over every feasible value of the argument (solver-enumerated) and continue with a constant
+		if sx, ok := args[0].(sym); ok {
+			return EX.concretize(sx), true
+		}
+		return args[0], true
 	case "zzParam":
 		return Params[args[0].(string)], true
 	case "zzSymbolic":
